@@ -276,11 +276,13 @@ def devTagSkippedPart (cls : Classes) (t : Token) : Bool :=
 /-! ### Hypotheses on the lexer's output
 
   The tokenizer model takes the text and the lexer's tokens as input; the theorems about
-  positions assume the following decidable facts (the driver evaluates them on every generated
-  case).  They do not mention token values (except a comment's) or the lexer's columns:
-  `extentsB` is the lexer's contract about source extents in BYTES, `measB` / `inlineB` /
-  `placed` say that the UTF-16 cursor and UTF-16 lengths of pieces of the text agree, which is a
-  fact about rune boundaries (Lemmas/SemTokCuts.lean derives them from `cutsB`). -/
+  positions assume the lexer's CONTRACT about that output — `extentsB` (extents in bytes),
+  `cutsB` (offsets on rune boundaries, defined further down) and `lineOk` (line numbers) — as
+  decidable facts which the driver evaluates on every generated case.  They do not mention
+  token values (except a comment's) or the lexer's columns.  `measured` / `measB` / `placed` are
+  intermediate notions (the cursor agrees with UTF-16 lengths and LSP characters) which
+  HL/Lemmas/SemTokPlace.lean derives from the contract; `inlineB` is the one hypothesis that
+  the open CRLF finding falsifies. -/
 
 /-- No line feed in `text[a:b)`. -/
 def noLf (text : Bytes) (a b : Nat) : Bool := !(sliceB text a b).contains lf
@@ -344,6 +346,30 @@ def inlineB (lens : List Nat) (cls : Classes) (text : Bytes) (toks : List Token)
 def placed (text : Bytes) (t : Token) : Bool :=
   let a := (lexemeRange text t).1
   posOfOffset text a == (t.pos.line - 1, colAt text a)
+
+/-! ### Rune boundaries (the lexer's offsets never fall inside a rune) -/
+
+/-- `n` is a rune boundary of `s`: the start of a rune, or the end of the string, when `s` is
+    decoded from its start (`for i := range s`). -/
+def isCutF : Nat → Bytes → Nat → Bool
+  | _, _, 0 => true
+  | 0, _, _+1 => false
+  | _+1, [], _+1 => false
+  | f+1, s@(_ :: _), n+1 =>
+    let k := (decodeRune s).2
+    k ≤ n+1 && isCutF f (s.drop k) (n+1-k)
+
+def isCut (s : Bytes) (n : Nat) : Bool := isCutF s.length s n
+
+/-- Both ends of the token's extent are rune boundaries of the text. -/
+def cutOk (text : Bytes) (t : Token) : Bool := isCut text t.pos.off && isCut text t.stop.off
+
+/-- The lexer's contract about offsets: every mapped token starts and ends on a rune boundary. -/
+def cutsB (text : Bytes) (toks : List Token) : Bool := (mappedBody toks).all (cutOk text)
+
+/-- The lexer's contract about line numbers: `Pos.Line` is one more than the number of line
+    feeds before `Pos.Offset`. -/
+def lineOk (text : Bytes) (t : Token) : Bool := (posOfOffset text t.pos.off).1 == t.pos.line - 1
 
 /-- The property's domain: valid UTF-8 (no U+FFFD produced by decoding unless present), and CR
     only as part of CRLF. -/
